@@ -8,6 +8,7 @@ import NadaVerif.Spec.C06
 import NadaVerif.Spec.C03
 import NadaVerif.Spec.C07
 import NadaVerif.Runtime.SourceRef
+import NadaVerif.Driver.AuditJson
 import NadaVerif.Driver.ProgJson
 
 namespace NadaVerif.Driver
@@ -79,6 +80,7 @@ def handle (j : Json) : Json :=
        let r := Runtime.lineInfo (ls.toList.map String.toList) n
        Json.arr #[Json.num (r.1 : Nat), Json.num (r.2 : Nat)]
      | _, _ => Json.mkObj [("error", Json.str "bad lineinfo request")])
+  | .ok "audit" => handleAudit j
   | .ok "fold" => handleFold j
   | .ok "prog" => handleProg j
   | .ok k => Json.mkObj [("error", Json.str ("unknown request " ++ k))]
